@@ -7,6 +7,7 @@ from vlib import core as _core
 
 STAGES = [
     Stage("spd", "p05_spd", "plain", {"quick": 120, "thorough": 5000}, timeout_per_case=240),
+    Stage("spd-asan", "p05_spd", "asan", {"quick": 16, "thorough": 300}, offset=1000000, timeout_per_case=900),
     # the recorded input of the open finding F17 (fixed grid and geometry parameters from /verif/findings): reproduces it on every run
     Stage("f17-witness", "p05_spd", "plain", {"quick": 1, "thorough": 1}, args={"witness": os.path.join(_core.VERIF, "findings", "F17_witness.txt")},
           offset=9000000, timeout_per_case=240),
@@ -43,7 +44,7 @@ RULE = ("case = random admissible grid (non-uniform angular spacing in 70%; 5% l
         "column and its symmetric part Cholesky-factorised in long double, as are all circle and radial line blocks; "
         "signature = (geometry, DirBC, angular kind, radial kind, size class, dense?, profile)")
 ASSUMPTIONS = ["A x is observed as -(residual with zero rhs)", "definiteness on grids too large for the dense factorisation is only sampled by vectors"]
-TECHNIQUE = "algebraic-invariant runtime monitor: inner-product symmetry on generated vector pairs, column-by-column matrix extraction with long-double Cholesky of the interior matrix and of every line block, inverse iteration towards the smallest eigenvalue"
+TECHNIQUE = "algebraic-invariant runtime monitor: inner-product symmetry on generated vector pairs, column-by-column matrix extraction with long-double Cholesky of the interior matrix and of every line block, inverse iteration towards the smallest eigenvalue; ASan/UBSan replay of the same generator"
 LEVEL_TEXT = ("sampled executions judged by an oracle: generated grids/geometries; symmetry to 1e-12 of |x|^T|A||y|, deterministic "
               "definiteness verdict (Cholesky, all pivots > 0) wherever the interior matrix has <= 2000 unknowns, positivity of the "
               "quadratic form elsewhere")
